@@ -40,13 +40,15 @@ def cmp_nodes(t):
     return out
 
 
-def check(tier):
-    rep = Report("C11", tier, "proof")
+def declare(rep):
     rep.rule("C11.compile", "backup<probe<S,N,T,M>> lookup harness compiles", floor=8)
     rep.rule("C11.one-query", "at most one backend query site, on the view's own backend, at exactly the incoming coordinate", floor=8)
     rep.rule("C11.cmp", "every comparison relates c_i to lo_i or hi_i of the same component, with the coordinate type's signedness", floor=8)
     rep.rule("C11.gate", "over all products of per-component orderings: the backend is queried iff every component lies in the closed box", floor=100)
     rep.rule("C11.out", "over the same orderings: output q is backend value[q] when in range and default[q] otherwise", floor=100)
+
+
+def run(rep, tier):
     if tier == "quick":
         combos = [(N, M, s) for N in (1, 2, 3) for s in ("size_t", "int", "float") for M in ((N % 3) + 1,)] + [(2, 2, "double"), (1, 4, "unsigned")]
     else:
@@ -141,6 +143,13 @@ def check(tier):
             rep.fail("C11.cmp", inst, ir.where(call.inst), "comparison predicate(s) %s do not match coordinate kind %s" % (sorted(badpred), kind))
         else:
             rep.ok("C11.cmp", inst)
+    return hs
+
+
+def check(tier):
+    rep = Report("C11", tier, "proof")
+    declare(rep)
+    hs = run(rep, tier)
     rep.assumptions = ["NaN coordinates excluded (as in the property)"]
     rep.extra["instantiations"] = [h.name for h in hs]
     return rep.finish(
